@@ -1,5 +1,5 @@
 """Contracts for xdoctest/parser.py and the docstring-level entry points of xdoctest/core.py (C13, C14, C08.offsets, C01.tabs)."""
-from pyvc.contracts import contract, record, tagged_record, tuple_record, LoopSpec, ASLIST, TUPLE_RECORDS
+from pyvc.contracts import contract, record, tagged_record, tuple_record, LoopSpec, ASLIST, ASSTR, CLASS_ALIAS, TUPLE_RECORDS
 
 _P = "xdoctest.parser:DoctestParser."
 record("DoctestParser", simulate_repl="bool")
@@ -143,3 +143,74 @@ contract(_P + "_label_docsrc_lines#labels",
          props=["C13"], opts={"native": False},
          note="labels follow the transition rule S.next_label written from the statement; every line of the docstring gets exactly one label",
          sentinel=("everything-is-text", "True == False"))
+
+
+# ------------------------------------------------------------------------ C08.freeform: line of a freeform doctest
+# parse() returns a list whose elements are text (str) or DoctestPart objects: a tagged record
+record("DocTest", lineno="int", num="int", docsrc="str")
+tagged_record("ParsedItem", {"str": "is_text"}, is_text="bool", text="str",
+              exec_lines="list[str]", want_lines="Optional[list[str]]", line_offset="int", orig_lines="list[str]")
+ASSTR["ParsedItem"] = "text"
+CLASS_ALIAS["ParsedItem"] = "DoctestPart"
+
+contract(_P + "__init__", params={"self": "DoctestParser", "simulate_repl": "bool"}, trusted=True, log=False,
+         modifies=["self.simulate_repl"], note="T: stores the flag")
+contract(_P + "parse#items", params={"self": "DoctestParser", "string": "str", "info": "Optional[Val]"},
+         returns="reclist[ParsedItem]", trusted=True,
+         raises={"DoctestParseError?": None},
+         note="the same function as DoctestParser.parse (C14.wrap), seen as producing a list of text / part items")
+contract("xdoctest.doctest_example:DocTest.__init__",
+         params={"self": "DocTest", "docsrc": "str", "modpath": "Maybe[str]", "callname": "Maybe[str]", "num": "int", "lineno": "int",
+                 "fpath": "Maybe[str]", "block_type": "Maybe[str]", "mode": "str"},
+         modifies=["obj(self)"],
+         ensures=[("stores-the-line", "self.lineno == lineno"), ("stores-the-index", "self.num == num"),
+                  ("stores-the-text", "self.docsrc == docsrc")],
+         props=["C08"],
+         opts={"native": False, "region": {"from": "self.docsrc = docsrc"}},
+         note="region: from `self.docsrc = docsrc` to the end (the module-name resolution before it does not touch lineno / num)",
+         sentinel=("line-is-one", "self.lineno == 1"))
+
+contract("xdoctest.core:parse_freeform_docstr_examples.doctest_from_parts",
+         params={"parts": "reclist[DoctestPart]", "num": "int", "curr_offset": "int", "docsrc": "str"}, returns="DocTest",
+         requires=[("some-part", "len(parts) > 0")],
+         ensures=[("line-of-the-doctest", "result.lineno == lineno + curr_offset"),
+                  ("numbered", "result.num == num")],
+         props=["C08"],
+         opts={"native": False, "closure": {"lineno": "int", "modpath": "Maybe[str]", "callname": "Maybe[str]", "fpath": "Maybe[str]"},
+               "region": {"from": "example = doctest_example.DocTest(", "drop": ["for p in parts:"]}},
+         note="region: from the DocTest construction on (the re-joined source text before it is an arbitrary str here); dropped: the loop "
+              "that rebases the parts' line_offset (in-place mutation of list elements is outside the engine's record-list model)",
+         sentinel=("line-ignores-offset", "result.lineno == lineno"))
+
+contract("xdoctest.core:parse_freeform_docstr_examples.doctest_from_parts#call",
+         params={"parts": "idxlist[ParsedItem]", "num": "int", "curr_offset": "int"}, returns="Val", trusted=True,
+         requires=[("some-part", "len(parts) > 0")],
+         opts={"closure": {}},
+         note="the caller's view of doctest_from_parts (verified above): the precondition is checked at the call; the rebasing of the "
+              "parts' line_offset is not visible to the caller, which never reads line_offset")
+
+_ISIZE = "((p.text.count('\\n') + 1) if p.is_text else (len(p.exec_lines) + (len(p.want_lines) if p.want_lines else 0)))"
+_SIZES = "[" + _ISIZE + " for p in all_parts]"
+contract("xdoctest.core:parse_freeform_docstr_examples#offsets",
+         params={"docstr": "str", "callname": "Maybe[str]", "modpath": "Maybe[str]", "lineno": "int", "fpath": "Maybe[str]", "asone": "bool"},
+         requires=[("one-doctest-per-docstring", "asone")],
+         raises={"DoctestParseError?": None},
+         loops={1: LoopSpec(header="all_parts",
+                            types={"curr_parts": "idxlist[all_parts]"}, modifies=[],
+                            invariants=[("first-kept-part-was-visited", "implies(len(curr_parts) > 0, 0 <= indices_of(curr_parts)[0] and indices_of(curr_parts)[0] < _i1)"),
+                                        ("offset-counts-the-lines-before-the-first-kept-part",
+                                         "curr_offset == S.int_sum(" + _SIZES + "[:(indices_of(curr_parts)[0] if len(curr_parts) > 0 else _i1)])"),
+                                        ("one-example", "num == 0")])},
+         props=["C08", "C07"],
+         opts={"native": False,
+               "use": {"xdoctest.parser:DoctestParser.parse": "xdoctest.parser:DoctestParser.parse#items",
+                       "xdoctest.core:parse_freeform_docstr_examples.doctest_from_parts":
+                           "xdoctest.core:parse_freeform_docstr_examples.doctest_from_parts#call"},
+               "exit_facts": [("the-doctest-starts-at-its-first-kept-part",
+                               "implies(ev_count('doctest_from_parts') == 1, ev_arg('doctest_from_parts', 0, 'curr_offset') == "
+                               "S.int_sum(" + _SIZES + "[:indices_of(curr_parts)[0]]) and ev_arg('doctest_from_parts', 0, 'num') == 0)"),
+                              ("one-doctest-iff-some-part-kept", "ev_count('doctest_from_parts') == (1 if len(curr_parts) > 0 else 0) and "
+                                                                "ev_count('yield') == ev_count('doctest_from_parts')")]},
+         note="freeform with asone=True: one doctest per docstring; its line is lineno + the number of docstring lines (text lines and "
+              "skipped special-block parts) before its first kept part",
+         sentinel=("offset-always-zero", "True == False"))
